@@ -693,6 +693,22 @@ func generate(r *hx.Rng) []*kase {
 		add("S", "v2", local, remote, fmtMsgs(ms), "-")
 	})
 
+	// the same alphabet through the REAL streamWriter in queued-batch mode: all messages of the sequence are
+	// queued while the writer is still encoding the first one, so its batch loop (one local message variable
+	// refilled per message, passed by pointer to the encoder) takes them in a single batch
+	exhaustive(*exhQueued, func(local, remote uint64, ms []raftpb.Message) {
+		if len(ms) < 2 {
+			return
+		}
+		add("L", "v2q", local, remote, fmtConns([][]raftpb.Message{ms}), "-")
+	})
+	for i := 0; i < *nLife/2; i++ {
+		codec, local, remote, conns := genLife(r)
+		if codec == "v2" {
+			add("L", "v2q", local, remote, fmtConns(conns), "-")
+		}
+	}
+
 	var pool [][2]interface{} // (codec, stream) of valid streams, for the mutator
 	keep := func(codec string, local, remote uint64, s []byte) {
 		if len(pool) < 400 {
